@@ -62,6 +62,8 @@ class B:
         self.lists, self.phase = lists, phase
 
     def domain(self, p):
+        if p.get('single'):
+            return self.objs[p['d'][0]]              # a single value as the domain
         if self.lists is None:
             return [self.objs[i] for i in p['d']]
         if p['x'] not in self.lists:
@@ -97,7 +99,14 @@ class B:
         if self.form == 'pred':
             pos = [self.value(a[1]) for a in p['args'] if a[0] == 'pos']
             kw = {names[a[1]]: self.value(a[2]) for a in p['args'] if a[0] == 'kw'}
-            h = cls(From(dom), *pos, **kw)
+            if self.case.get('shared_from'):
+                # ONE From object is the source of every term of the case
+                if not hasattr(self, 'shared'):
+                    self.shared = From(dom)
+                src = self.shared
+            else:
+                src = From(dom)
+            h = cls(src, *pos, **kw)
             self.handles[p['x']] = h
             return h
         # explicit form
